@@ -994,13 +994,35 @@ namespace bloch::runtime {
             rc->isAbstract = clsNode->isAbstract;
             m_classTable[rc->name] = rc;
         }
-        // populate members
+        // populate members; a class copies its base's fields and vtable, so the base must be
+        // complete first whatever the order of the declarations in the source
+        std::unordered_map<std::string, compiler::ClassDeclaration*> nodeByName;
         for (auto& clsNode : program.classes) {
+            if (clsNode && clsNode->typeParameters.empty())
+                nodeByName.emplace(clsNode->name, clsNode.get());
+        }
+        std::unordered_set<std::string> populated;
+        std::function<void(compiler::ClassDeclaration*)> populate =
+            [&](compiler::ClassDeclaration* clsNode) {
             if (!clsNode || !clsNode->typeParameters.empty())
-                continue;  // generic templates handled lazily
+                return;  // generic templates handled lazily
+            if (!populated.insert(clsNode->name).second)
+                return;
             RuntimeClass* rc = findClass(clsNode->name);
             if (!rc)
-                continue;
+                return;
+            {
+                std::string baseName;
+                if (auto named = dynamic_cast<NamedType*>(clsNode->baseType.get())) {
+                    if (named->typeArguments.empty() && !named->nameParts.empty())
+                        baseName = named->nameParts.back();
+                } else if (!clsNode->baseName.empty()) {
+                    baseName = clsNode->baseName.back();
+                }
+                auto baseNode = nodeByName.find(baseName);
+                if (baseNode != nodeByName.end())
+                    populate(baseNode->second);
+            }
             // Wire base (non-generic class)
             if (clsNode->baseType) {
                 if (auto named = dynamic_cast<NamedType*>(clsNode->baseType.get())) {
@@ -1098,7 +1120,8 @@ namespace bloch::runtime {
             }
             if (rc->staticStorage.size() < rc->staticFields.size())
                 rc->staticStorage.resize(rc->staticFields.size());
-        }
+        };
+        for (auto& clsNode : program.classes) populate(clsNode.get());
     }
 
     RuntimeClass* RuntimeEvaluator::instantiateGeneric(
